@@ -1191,16 +1191,44 @@ func (fv *FuncVerifier) bindLets(st *State, cls []Clause, pos token.Pos) {
 	}
 	var errs []string
 	for _, cl := range cls {
-		g := fv.ownEnvAt(st, &errs, pos).eval(cl.Expr)
+		var g Val
+		if cl.Index != "" {
+			// let name[j] = e(j): a fresh sequence with  forall j. name[j] == e(j)  in the current state
+			fv.nfresh++
+			q := fmt.Sprintf("%s_d%d", cl.Index, fv.nfresh)
+			env := fv.ownEnvAt(st, &errs, pos)
+			body := env.with(map[string]Val{cl.Index: {T: q, Sort: "Int"}}).eval(cl.Expr)
+			es := body.sortIn(fv.eng.sc)
+			if es != "Int" && es != "Real" && es != "Bool" && es != "Rank" {
+				fv.unsupported("let " + cl.Name + "[...]: element sort " + es + " not supported")
+				continue
+			}
+			arr := fv.fresh("gseq_"+cl.Name, "(Array Int "+es+")")
+			fv.assume(st, "(forall (("+q+" Int)) (! (= (select "+arr+" "+q+") "+body.T+") :pattern ((select "+arr+" "+q+"))))")
+			g = Val{T: arr, Sort: "(Array Int " + es + ")"}
+		} else {
+			g = fv.ownEnvAt(st, &errs, pos).eval(cl.Expr)
+		}
 		ty := g.Ty
 		if ty == nil {
 			ty = types.Typ[types.Int]
 			if g.Sort == "Bool" {
 				ty = types.Typ[types.Bool]
 			}
-			if g.Sort == "(Array Int Int)" {
+			switch g.Sort {
+			case "(Array Int Int)":
 				// ghost sequence: carried as an (unbounded) array of int so that merges and loop havoc keep its sort
 				ty = types.NewArray(types.Typ[types.Int], 1<<40)
+			case "(Array Int Real)":
+				ty = types.NewArray(types.Typ[types.Float64], 1<<40)
+			case "(Array Int Bool)":
+				ty = types.NewArray(types.Typ[types.Bool], 1<<40)
+			case "Real":
+				ty = types.Typ[types.Float64]
+			case "Rank":
+				ty = rankType
+			case "(Array Int Rank)":
+				ty = types.NewArray(rankType, 1<<40)
 			}
 		}
 		if fv.letVars == nil {
